@@ -24,13 +24,22 @@ def run(ctx):
                 "returning 0 / -EACCES), requests, client disappearance, server-side disconnect / connection_ref / "
                 "unref / event_send / connection-list walk from outside and (scripted) from inside every callback, "
                 "also aimed at other connections, closed callbacks returning non-zero (retry job run by explicit "
-                "`job`/`run` ops), pending handshakes, qb_ipcs_destroy at any point, always ending with `finish` "
+                "`job`/`run` ops), pending handshakes, qb_ipcs_destroy at any point, a pipelining client (`sendn K N`: N requests "
+                "queued before the dispatcher runs, so that qb_ipcs_dispatch_connection_request drains a batch, with "
+                "scripted msg_process callbacks disconnecting / referencing / sending on the k-th request), rate-limit "
+                "changes (batch size 1 / 5 / 50), fault injection in the application's poll handlers (`fault add|mod|del "
+                "N`: the N-th dispatch_add / dispatch_mod / dispatch_del call returns an error: handshake socket of a "
+                "connect or raw peer, the connection's own descriptors), always ending with `finish` "
                 "(drop application references, clients leave, destroy, run jobs); plus shaped histories for a "
                 "reference that outlives the peer, disconnect of a SHUTTING_DOWN connection, disconnect inside "
-                "created/msg/closed, closed callbacks disconnecting their neighbours during destroy; a case is "
+                "created/msg/closed, closed callbacks disconnecting their neighbours during destroy, request batches "
+                "with a disconnect on a request that is not the last, failing dispatch_add with and without other "
+                "connections alive followed by further connects (service liveness); a case is "
                 "non-trivial if closed was retried, a disconnect came from inside created/msg/closed, a connection "
                 "was rejected, an application reference was the last one, closed callbacks nested, destroy met live "
-                "connections or a handshake was pending; distinct by SHA1 of the op lines")
+                "connections, a handshake was pending, a batch of >= 2 requests was delivered in one op, a disconnect "
+                "came on a later request of a batch, a dispatch_add fault dropped a handshake or a connection; "
+                "distinct by SHA1 of the op lines")
     ctx.trusted = ["Lean 4.33 kernel; axioms propext, Classical.choice, Quot.sound",
                    "harness/ipc/ipcs_life.c + hl_loop.h (in-process server on a real qb_loop, real qb_ipcc clients, "
                    "scripted handlers, retry jobs queued by the harness's job_add) and the line-by-line comparison "
@@ -41,10 +50,14 @@ def run(ctx):
                        "announced for it or while it holds a reference of its own, drops only references it took, "
                        "sends events only to connections it has not seen closing, does not use the service after "
                        "qb_ipcs_destroy; qb_ipcs_destroy is not called from inside a callback",
-                       "one dispatch thread; job_add never fails; malloc/mkdtemp/ring creation succeed; one request "
-                       "per dispatch; rate limiting / flow control not exercised",
-                       "every client action is followed by running the loop until idle (the order in which the "
-                       "kernel reports several simultaneously ready descriptors is not explored)"]
+                       "one dispatch thread; job_add never fails; malloc/mkdtemp/ring creation succeed; flow control "
+                       "(QB_IPCS_RATE_OFF) not exercised; a failing dispatch_del has removed the descriptor",
+                       "every client action (a single request, or a burst of N requests queued back to back) is followed "
+                       "by running the loop until idle (the order in which the kernel reports several simultaneously "
+                       "ready descriptors is not explored)",
+                       "finding D20d (fixes/D20d-rate-limit-stale-descriptor.*): socket transport, rate-limit change "
+                       "while a disconnected connection is still listed; generators stay outside (tools/lifegen.py "
+                       "RATE_ANYWHERE_ON_SOCK) until the repair is committed"]
     vlib.lean_prepare(ctx)
     ctx.compile_lib(sources=IPC_LIB, extra=NOALIGN)
     exe = ctx.compile_harness("ipc/ipcs_life.c", extra=NOALIGN)
@@ -76,7 +89,7 @@ def run(ctx):
     vlib.differential(ctx, exe, "ipcslife", corpus, oracle, "corpus", **kw)
     if ctx.violations:
         return
-    n = ctx.scale(500, 8000)
+    n = ctx.scale(1500, 12000)
     shaped = [("s%d" % i, lifegen.gen_shaped(ctx.rng)) for i in range(n)]
     rnd = [("r%d" % i, lifegen.gen_case(ctx.rng)) for i in range(n)]
     for stream, cases in (("shaped", shaped), ("random", rnd)):
